@@ -146,6 +146,27 @@ fn foreign_clause(own: &str, clause: &str) -> bool {
     false
 }
 
+/// Runs in progress: (started, description), for the hang watchdog.
+static IN_FLIGHT: Mutex<Vec<(u64, Instant, crate::alloc::RunDesc)>> = Mutex::new(Vec::new());
+static FLIGHT_SEQ: AtomicU64 = AtomicU64::new(0);
+
+/// A run that does not come back (an endless loop inside one poll of the code under test never reaches the scheduler's
+/// step cap) would hang the whole check. The watchdog reports it as a violation with a seed replay instead. Ordinary runs
+/// take milliseconds; the limit is generous enough for a heavily loaded machine.
+fn start_watchdog() {
+    let limit = Duration::from_secs(std::env::var("VERIF_HANG_S").ok().and_then(|s| s.parse().ok()).unwrap_or(300));
+    std::thread::Builder::new()
+        .name("watchdog".into())
+        .spawn(move || loop {
+            std::thread::sleep(Duration::from_secs(2));
+            let stuck = IN_FLIGHT.lock().unwrap().iter().find(|(_, t, _)| t.elapsed() > limit).map(|(_, _, d)| d.clone());
+            if let Some(d) = stuck {
+                crate::alloc::fatal_violation(&d, "hang", &format!("the run did not finish within {} s of wall-clock time: the code under test loops or blocks inside a single poll (the simulator never blocks)", limit.as_secs()));
+            }
+        })
+        .expect("spawn watchdog");
+}
+
 fn exec_run(spec: RunSpec<'_>) -> RunOut {
     let run = spec.scen.run;
     let RunSpec { seed, profile, thorough, replay, tracing, .. } = spec;
@@ -159,12 +180,22 @@ fn exec_run(spec: RunSpec<'_>) -> RunOut {
         verif_dir: verif_dir(),
         replay: replay.clone(),
     };
+    let flight = FLIGHT_SEQ.fetch_add(1, Ordering::Relaxed);
+    IN_FLIGHT.lock().unwrap().push((flight, Instant::now(), desc.clone()));
     let h = std::thread::Builder::new()
         .name("simrun".into())
         .stack_size(32 << 20)
         .spawn(move || {
             ctx::begin_run(seed, replay, profile, thorough, tracing);
             crate::alloc::enter_run(desc);
+            // self-test of the two process-level guards (never set by a registered command)
+            match std::env::var("VERIF_SELFTEST_GUARD").as_deref() {
+                Ok("hang") if seed % 7 == 0 => loop {
+                    std::hint::spin_loop()
+                },
+                Ok("alloc") if seed % 7 == 0 => drop(std::hint::black_box(Vec::<u8>::with_capacity(1 << 40))),
+                _ => {}
+            }
             let r = std::panic::catch_unwind(std::panic::AssertUnwindSafe(run));
             let sim_time = web_time::sim::elapsed();
             let steps = exec::steps();
@@ -225,7 +256,9 @@ fn exec_run(spec: RunSpec<'_>) -> RunOut {
             }
         })
         .expect("spawn run thread");
-    h.join().expect("run thread must not die outside catch_unwind")
+    let out = h.join().expect("run thread must not die outside catch_unwind");
+    IN_FLIGHT.lock().unwrap().retain(|(f, _, _)| *f != flight);
+    out
 }
 
 fn verif_dir() -> String {
@@ -385,6 +418,7 @@ fn cmd_run(checks: &[Check], args: &[String]) -> i32 {
         std::env::var("VERIF_WALL_S").ok().and_then(|s| s.parse().ok()).unwrap_or(if tier == Tier::Quick { 120 } else { 1500 }),
     );
     let seed = base_seed();
+    start_watchdog();
     warmup(check);
     let known = load_known(check.id);
     let plan = plan(check, tier, runs_override);
@@ -745,6 +779,7 @@ fn cmd_replay(checks: &[Check], args: &[String]) -> i32 {
     let profile = profile_from(v["profile"].as_str().unwrap_or("none"));
     let thorough = v["tier"].as_str() == Some("thorough");
     let clause = v["clause"].as_str().unwrap_or("").to_string();
+    start_watchdog();
     warmup(check);
     let out = exec_run(RunSpec { own: check.id, scen, seed, profile, thorough, replay: choices, tracing: true });
     for l in &out.trace {
